@@ -56,6 +56,17 @@ CLAIMED = {
     note="Relative to pytools.UniqueNameGenerator (A-UNG). Fortran case-insensitive distinctness, the 63-character limit, and legality of untagged function ids are NOT satisfied by the code: known findings D15, D16, D29, D30 (bounded stand-in: lookup sequences on the real managers, exhaustive short names + adversarial names).",
     technique="contract-based deductive verification: ast->z3 VC generation over code-point arrays, map representation invariant, z3 string prefix lemmas",
     ref="6/C13"),
+
+ "C01": dict(cat="other",
+    text="PARTIAL. Decided deductively: the step protocol (NumpyInterpreter.run and the emitted `run` template proved against ONE contract: events forwarded, StepFailed/StepCompleted contents, next phase, stopping conditions, exception propagation), both run_single_step implementations, resolve_args == Python call binding, exec_Assign raises no spurious exception, builtin signatures agree with the registry. NOT decided: that emitted statement/expression text means what exec_* does (assumption A-EMIT) - only the bounded stand-in compares interpreter, generated class and a program-order reference executor on builder programs.",
+    note="Category other because the end-to-end statement (equality of two backends on all programs) is not within reach of function contracts: a contract on a text printer cannot say what the text computes. Known differences (D22, D31 ...) listed by fingerprint.",
+    technique="contract-based deductive verification of the protocol layer (one contract, two implementations incl. mechanically extracted code templates) + bounded differential stand-in",
+    ref="6/C01"),
+ "C11": dict(cat="proof",
+    text="run_single_step of the interpreter is proved, for an arbitrary phase body and every exit (normal or any exception), to leave only persistent keys in the context, to keep every persistent entry as the body left it and to let the exception through unchanged; reset -> update_plan -> controller is proved to be the first thing every step does; both `run` implementations are proved to catch only the stepper's own two signals; the emitted run_single_step catches nothing. With C08 (who writes the context, and when) and C04 (dependents never run before a failed dependency) this gives the clauses on values and resumability.",
+    note="Generated phase bodies are assumed (A-EMIT) to keep temporaries in Python locals; storage classes of names are proved under C13. StopIteration from a user function is converted by PEP 479 (finding D32). Bounded stand-in: fault injection at every call site of generated programs in both backends.",
+    technique="contract-based deductive verification: exceptional postconditions (try/finally, generator delegation) on the real stepper functions and extracted templates",
+    ref="6/C11"),
 }
 
 NOT_APPLICABLE = {
